@@ -319,9 +319,10 @@ Definition cfg_get (cfg : jv) (k : pstr) : res jv :=
   end.
 
 (* [x in j] for a str x *)
+Definition jstr_is (x : pstr) (e : jv) : bool := match e with JStr s => pstr_eqb s x | _ => false end.
 Definition jv_contains (x : pstr) (j : jv) : res bool :=
   match j with
-  | JList l => Ok (existsb (fun e => match e with JStr s => pstr_eqb s x | _ => false end) l)
+  | JList l => Ok (existsb (jstr_is x) l)
   | JStr s => Ok (contains s x)
   | JDict kv => Ok (match assoc x kv with Some _ => true | None => false end)
   | JNull | JBool _ | JInt _ => Raise TypeError
